@@ -52,6 +52,7 @@ type prog struct {
 	Create  bool   `json:"create,omitempty"`
 	Seed    int    `json:"seed,omitempty"`     // InitialMsgpackOnCreate: 0 none, 1 {status: pending}, 2 {status: claimed}
 	ReqMeta bool   `json:"req_meta,omitempty"` // request-level Meta
+	Neg     bool   `json:"neg,omitempty"`      // the case uses the negative Cap.Filter (lock IS_EMPTY)
 	Items   []item `json:"items,omitempty"`
 	Hm      int    `json:"hm,omitempty"`
 	Post    bool   `json:"post,omitempty"`
@@ -105,25 +106,74 @@ func expOf(k int, x, d bool) time.Time {
 	return futBase.Add(time.Duration(k) * time.Second)
 }
 
+// Two encodings of "matches Cap.Filter": positive (status == "claimed") and negative (the body
+// has no "lock" field, Cap.Filter = lock IS_EMPTY; a record is moved INTO the filter by a DELETE
+// op and out of it by a SET). negSwamps holds the swamps of cases that use the negative one.
+var negSwamps sync.Map
+
+func isNeg(sw string) bool { _, ok := negSwamps.Load(sw); return ok }
+func markNeg(sw string, ps []prog) {
+	if len(ps) > 0 && ps[0].Neg {
+		negSwamps.Store(sw, true)
+	}
+}
+func negate(ps []prog) []prog {
+	out := make([]prog, len(ps))
+	for i, p := range ps {
+		p.Neg = true
+		out[i] = p
+	}
+	return out
+}
+func lockOps(m bool) []*hydrapb.PatchOp {
+	if m {
+		return lib.OpDelLock()
+	}
+	return lib.OpSetLock()
+}
+func putRec(e *lib.Env, sw string, k int, m bool, exp time.Time) {
+	if !isNeg(sw) {
+		e.Seed(sw, key(k), status(m), 0, exp)
+		return
+	}
+	e.Seed(sw, key(k), "pending", 0, exp)
+	if !m {
+		_, _ = e.PatchStatusSeed(sw, []lib.PatchItem{{Key: key(k), RawOps: lib.OpSetLock()}}, nil, false, nil, nil)
+	}
+}
+
 func seed(e *lib.Env, sw string, rs []rec) {
 	e.SeedAnchor(sw)
+	if isNeg(sw) {
+		_, _ = e.PatchStatusSeed(sw, []lib.PatchItem{{Key: lib.Anchor, RawOps: lib.OpSetLock()}}, nil, false, nil, nil)
+	}
 	for _, r := range rs {
-		e.Seed(sw, key(r.K), status(r.M), 0, expOf(r.K, r.X, r.D))
+		putRec(e, sw, r.K, r.M, expOf(r.K, r.X, r.D))
 	}
 }
 
 // runProg executes one program against the swamp and returns its (key, code) results.
 func runProg(e *lib.Env, sw string, max int, p prog) []kc {
 	cap := lib.CapOf("claimed", int32(max))
+	neg := isNeg(sw)
+	if neg {
+		cap = lib.CapUnlocked(int32(max))
+	}
 	switch p.Kind {
 	case "PT":
 		items := make([]lib.PatchItem, len(p.Items))
 		for i, it := range p.Items {
 			items[i] = lib.PatchItem{Key: key(it.K), Status: status(it.Post), Touch: it.Touch, Meta: it.Meta, Cond: it.Cond}
+			if neg {
+				items[i].RawOps = lockOps(it.Post)
+			}
 		}
 		var seedBody []byte
 		if p.Seed > 0 {
 			seedBody = lib.Enc(map[string]interface{}{"status": status(p.Seed == 2)})
+			if neg && p.Seed == 1 {
+				seedBody = lib.Enc(map[string]interface{}{"lock": "x"})
+			}
 		}
 		var reqMeta *hydrapb.PatchMeta
 		if p.ReqMeta {
@@ -150,7 +200,11 @@ func runProg(e *lib.Env, sw string, max int, p prog) []kc {
 			z := time.Time{}
 			nep = &z
 		}
-		r, _, err := e.PatchExpired(sw, lib.PEReq{HowMany: int32(p.Hm), NewStatus: status(p.Post), NewExp: nep, Cap: cap})
+		pq := lib.PEReq{HowMany: int32(p.Hm), NewStatus: status(p.Post), NewExp: nep, Cap: cap}
+		if neg {
+			pq.RawOps = lockOps(p.Post)
+		}
+		r, _, err := e.PatchExpired(sw, pq)
 		if err != nil {
 			return []kc{{-1, -1}}
 		}
@@ -173,7 +227,7 @@ func runProg(e *lib.Env, sw string, max int, p prog) []kc {
 	case "WDel":
 		_ = e.Delete(sw, key(p.K))
 	case "WPut":
-		e.Seed(sw, key(p.K), "pending", 0, expOf(p.K, p.Nx, p.Nd))
+		putRec(e, sw, p.K, false, expOf(p.K, p.Nx, p.Nd))
 	case "WExp":
 		e.SetExpiry(sw, key(p.K), expOf(p.K, p.Nx, p.Nd))
 	}
@@ -183,7 +237,11 @@ func runProg(e *lib.Env, sw string, max int, p prog) []kc {
 func dump(e *lib.Env, sw string) []rec {
 	out := []rec{}
 	for _, r := range e.Dump(sw) {
-		out = append(out, rec{K: keyNum(r.Key), M: r.Status == "claimed"})
+		m := r.Status == "claimed"
+		if isNeg(sw) {
+			m = !r.Lock
+		}
+		out = append(out, rec{K: keyNum(r.Key), M: m})
 	}
 	sort.Slice(out, func(i, j int) bool { return out[i].K < out[j].K })
 	return out
@@ -210,6 +268,9 @@ func cProg(p prog) string {
 			pf, pt, pc := it.Post, it.Post, it.Post
 			if it.Touch {
 				pf, pt, pc = false, true, p.Seed == 2
+				if p.Neg {
+					pc = p.Seed != 1 // the default seed (empty map) has no lock either
+				}
 			}
 			its = append(its, fmt.Sprintf("{| ik := %s; ipf := %s; ipt := %s; ipc := %s; iskip := %s |}", common.N(uint64(it.K)), common.Bool(pf), common.Bool(pt), common.Bool(pc), common.Bool(it.Cond == 2)))
 		}
@@ -374,6 +435,7 @@ const stepTimeout = 150 * time.Millisecond
 // runForced executes the macro schedule; returns the observation.
 func runForced(e *lib.Env, max int, rs []rec, ps []prog, sched []mstep, kind string) obs {
 	sw := e.FreshSwamp(false)
+	markNeg(sw, ps)
 	seed(e, sw, rs)
 	o := obs{Max: max, Recs: rs, Progs: ps, Replay: true, Kind: kind, Res: make([][]kc, len(ps))}
 	ctl := lib.NewCtl()
@@ -493,6 +555,7 @@ func runForced(e *lib.Env, max int, rs []rec, ps []prog, sched []mstep, kind str
 
 func runSeq(e *lib.Env, max int, rs []rec, ps []prog, kind string) obs {
 	sw := e.FreshSwamp(false)
+	markNeg(sw, ps)
 	seed(e, sw, rs)
 	o := obs{Max: max, Recs: rs, Progs: ps, Replay: true, Kind: kind, Res: make([][]kc, len(ps))}
 	for t, p := range ps {
@@ -504,8 +567,11 @@ func runSeq(e *lib.Env, max int, rs []rec, ps []prog, kind string) obs {
 	return o
 }
 
-func runStress(e *lib.Env, r *common.Rng, max int, rs []rec, rounds, nthreads int) obs {
+func runStress(e *lib.Env, r *common.Rng, max int, rs []rec, rounds, nthreads int, neg bool) obs {
 	sw := e.FreshSwamp(false)
+	if neg {
+		negSwamps.Store(sw, true)
+	}
 	seed(e, sw, rs)
 	o := obs{Max: max, Recs: rs, Replay: false, Kind: "stress"}
 	for round := 0; round < rounds; round++ {
@@ -656,6 +722,7 @@ func main() {
 					p := prog{Kind: "PT", Create: !existing, Items: []item{{K: 1, Post: post}, {K: 60, Post: true}, {K: 61, Post: true}, {K: 62, Post: true}}}
 					o := runSeq(e, max, rs, []prog{p}, "table")
 					add(o)
+					add(runSeq(e, max, rs, negate([]prog{p}), "table-neg"))
 					// the same cell with every rarely used per-key option switched on
 					q := p
 					q.ReqMeta = true
@@ -669,6 +736,7 @@ func main() {
 						}
 					}
 					add(runSeq(e, max, rs, []prog{q}, "table-options"))
+					add(runSeq(e, max, rs, negate([]prog{q}), "table-options-neg"))
 					run.Hist(fmt.Sprintf("cell:pre=%v,post=%v,budget=%d,existing=%v", pre, post, budget, existing))
 				}
 			}
@@ -689,6 +757,7 @@ func main() {
 				first := item{K: 1, Post: kind == 1, Touch: kind == 2}
 				p := prog{Kind: "PT", Create: true, Seed: seed, Items: []item{first, {K: 2, Touch: true}, {K: 60, Post: true}, {K: 61, Post: true}, {K: 62, Post: true}, {K: 1, Touch: true}}}
 				add(runSeq(e, max, rs, []prog{p}, "table-create"))
+				add(runSeq(e, max, rs, negate([]prog{p}), "table-create-neg"))
 				run.Hist(fmt.Sprintf("cell-create:seed=%d,op=%d,budget=%d", seed, kind, budget))
 			}
 		}
@@ -712,6 +781,9 @@ func main() {
 		ps := []prog{}
 		for k := 0; k < 2+rng.Intn(4); k++ {
 			ps = append(ps, genProg(rng, n, false))
+		}
+		if rng.Chance(35) {
+			ps = negate(ps)
 		}
 		jobs[i] = job{max, rs, ps}
 	}
@@ -807,7 +879,11 @@ func main() {
 					b = prog{Kind: "PE", Hm: 5, Post: true, Nx: true}
 				}
 				w := prog{Kind: "WPut", K: 9, Nx: true, Nd: true}
-				add(runForced(e, max, rs, []prog{a, b, w}, steps, "forced-unbounded"))
+				if rng.Chance(35) {
+					add(runForced(e, max, rs, negate([]prog{a, b, w}), steps, "forced-unbounded-neg"))
+				} else {
+					add(runForced(e, max, rs, []prog{a, b, w}, steps, "forced-unbounded"))
+				}
 			}
 		}
 	}
@@ -841,6 +917,9 @@ func main() {
 			sched = append(sched, seqs[t][0])
 			seqs[t] = seqs[t][1:]
 		}
+		if rng.Chance(30) {
+			ps = negate(ps)
+		}
 		add(runForced(e, max, rs, ps, sched, "forced3"))
 	}
 
@@ -852,7 +931,7 @@ func main() {
 	for i := 0; i < nstress; i++ {
 		max := 1 + rng.Intn(3)
 		n := 5 + rng.Intn(4)
-		add(runStress(e, rng, max, genRecs(rng, n, max), 3, 2+rng.Intn(5)))
+		add(runStress(e, rng, max, genRecs(rng, n, max), 3, 2+rng.Intn(5), rng.Chance(35)))
 	}
 	run.Meta.Traces = run.Meta.Evaluations
 	run.Meta.Extra["blocked_cases"] = nblocked
